@@ -55,8 +55,8 @@ func (f *Frame) doPanic(st *State, call *ast.CallExpr) {
 func (f *Frame) evalCall(st *State, call *ast.CallExpr) []Val {
 	var key string
 	var before Val
-	if len(f.c.specs.Tracked) > 0 {
-		if fn, _ := typeutil.Callee(f.info, call).(*types.Func); fn != nil && f.c.specs.Tracked[fn.Name()] {
+	if len(f.c.tracked) > 0 {
+		if fn, _ := typeutil.Callee(f.info, call).(*types.Func); fn != nil && f.c.tracked[fn.Name()] {
 			key = callsKey(fn.Name())
 		}
 	}
@@ -73,7 +73,7 @@ func callsKey(name string) string { return "calls:" + name }
 // every counter becomes an arbitrary value not below its current one (the callee's postconditions may
 // then say more).
 func (f *Frame) havocCalls(st *State) {
-	for name := range f.c.specs.Tracked {
+	for name := range f.c.tracked {
 		k := callsKey(name)
 		old, ok := st.gh[k]
 		if !ok {
@@ -93,7 +93,7 @@ func (f *Frame) havocCalls(st *State) {
 // callbacks, which are function-value calls made by *their* callers' arguments -- a function literal or
 // method value passed as an argument makes the result conservative again.
 func (f *Frame) havocCallsOf(st *State, fn *types.Func) {
-	for name := range f.c.specs.Tracked {
+	for name := range f.c.tracked {
 		if fn != nil && !f.mayReach(fn, name, map[*types.Func]bool{}) {
 			continue
 		}
@@ -199,7 +199,7 @@ func (f *Frame) evalCall1(st *State, call *ast.CallExpr, before *Val, countKey s
 		// argument expressions of counted callees are required to be call-free so that this snapshot is exact
 		ast.Inspect(call, func(n ast.Node) bool {
 			if c, ok := n.(*ast.CallExpr); ok && c != call {
-				if fn2, _ := typeutil.Callee(f.info, c).(*types.Func); fn2 != nil && f.c.specs.Tracked[fn2.Name()] {
+				if fn2, _ := typeutil.Callee(f.info, c).(*types.Func); fn2 != nil && f.c.tracked[fn2.Name()] {
 					f.unsupported(call, "counted call nested in the arguments of a counted call")
 				}
 			}
